@@ -572,7 +572,9 @@ def _sweep():
         (['ignored'], ['header']), (['header'], ['ignored']), (['option'], ['header']), (['header', 'ws'], ['header2']), (['header'], ['ws', 'header2']),
         (['txn', 'posting', 'pmeta'], ['header2']), (['txn', 'posting', 'pmeta'], []), (['header', 'meta'], []), (['header', 'meta'], ['blank']),
     ]
-    blocks = [[';c1'], ['  ;c1'], [';c1', ';c2'], ['  ;c1', '    ;c2'], [';c1', '  ;c2'], ['  ;c1', ';c2'], ['    ;c1']]
+    blocks = [[';c1'], ['  ;c1'], [';c1', ';c2'], ['  ;c1', '    ;c2'], [';c1', '  ;c2'], ['  ;c1', ';c2'], ['    ;c1'],
+              # comments with the same text in one gap (tokens compare equal by type and text: identity must decide)
+              [';c1', '', ';c1'], [';c1', '', ';c1', '', ';c1'], ['  ;c1', '', '  ;c1']]
     for pre, post in contexts:
         for blk in blocks:
             text = ''.join(LINE_KINDS[k] for k in pre) + ''.join(b + '\n' for b in blk) + ''.join(LINE_KINDS[k] for k in post)
